@@ -116,6 +116,8 @@ type Run struct {
 	watch    map[*Value]*watchCell
 	races    []string
 	raceSeen map[string]bool
+	backings   map[*Value]*Backing
+	bufBacking map[*Value]*Backing
 }
 
 type InputMeta struct {
